@@ -118,6 +118,13 @@ type vNetConn struct {
 	// scheduling point; a blocked or later Read then fails with a timeout error (net.Error, Timeout() == true)
 	deadlines bool
 	dl        chan struct{}
+	// the peer reset the connection while it was idle: the next Write fails (EPIPE) although the blocked Read has
+	// not been woken yet; the Write after that finds the reset delivered to the reader as well
+	rst       bool
+	rstWrites int
+	rstCh     chan struct{} // closed when the reset is delivered to the reader
+	// Close takes time (e.g. a TLS close_notify to a stalled peer): other goroutines run while it is in progress
+	slowClose bool
 }
 
 type vTimeoutErr struct{}
@@ -127,7 +134,7 @@ func (vTimeoutErr) Timeout() bool   { return true }
 func (vTimeoutErr) Temporary() bool { return true }
 
 func newVNetConn() *vNetConn {
-	return &vNetConn{inbox: make(chan []byte, 8), outbox: make(chan []byte, 8), closedCh: make(chan struct{})}
+	return &vNetConn{inbox: make(chan []byte, 8), outbox: make(chan []byte, 8), closedCh: make(chan struct{}), rstCh: make(chan struct{})}
 }
 
 func (c *vNetConn) Read(p []byte) (int, error) {
@@ -136,6 +143,8 @@ func (c *vNetConn) Read(p []byte) (int, error) {
 		case b := <-c.inbox:
 			c.pend = b
 		case <-c.closedCh:
+			return 0, errVConn
+		case <-c.rstCh:
 			return 0, errVConn
 		case <-c.dl: // nil channel (never ready) unless a deadline is armed
 			return 0, vTimeoutErr{}
@@ -151,6 +160,16 @@ func (c *vNetConn) Write(p []byte) (int, error) {
 	if c.closed {
 		return 0, errVConn
 	}
+	if c.rst {
+		c.rstWrites++
+		if c.rstWrites == 2 {
+			// by now the reset has reached the reader too; under any fair scheduler the reader gets to run (and its
+			// owner closes the connection) before this writer can come back a third time
+			close(c.rstCh)
+			<-c.closedCh
+		}
+		return 0, errVConn
+	}
 	verifrt.Yield() // a Write in progress: other goroutines may run before the bytes are actually taken
 	// one-at-a-time discipline (C06): every earlier query's 14-octet reply has been consumed completely
 	if c.checkClean && c.consumed != 14*c.nWrites {
@@ -162,6 +181,9 @@ func (c *vNetConn) Write(p []byte) (int, error) {
 }
 
 func (c *vNetConn) Close() error {
+	if c.slowClose && !c.closed {
+		verifrt.Yield()
+	}
 	if !c.closed {
 		c.closed = true
 		close(c.closedCh)
